@@ -726,6 +726,83 @@ func runC19(c *Case, out func(string)) {
 			}
 			checkScan("Scan "+strings.Join(l[1:], " "), rows, tx, nil, o)
 			tx.Rollback()
+		case "scanwrite":
+			// scanwrite KA VA KB VB: a full Scan whose stream is left unread behind its first row while
+			// a BatchWrite {put KA VA, put KB VB} is sent (KA sorts in front of the row read, KB behind
+			// everything); then the stream is drained. The scan shows the state before the batch or
+			// after it, never one of the two keys alone. (The model: the scan, then the batch - what
+			// the code does, the batch waits for the scan's read lock.)
+			if rwOpen+roOpen > 0 {
+				out("IMPL-ERROR scanwrite while a transaction is open is outside the sequential programs")
+				return
+			}
+			ka, va, kb, vb := tok(l[1]), tok(l[2]), tok(l[3]), tok(l[4])
+			sctx, scancel := context.WithTimeout(context.Background(), 30*time.Second)
+			st, err := n.cli.Scan(sctx, &pb.ScanRequest{})
+			var rows []kvPair
+			if err == nil {
+				var m *pb.ScanResponse
+				if m, err = st.Recv(); err == nil {
+					rows = append(rows, kvPair{m.Key, m.Value})
+				}
+			}
+			type bres struct {
+				resp *pb.BatchWriteResponse
+				err  error
+			}
+			bch := make(chan bres, 1)
+			go func() {
+				bctx, bcancel := context.WithTimeout(context.Background(), 30*time.Second)
+				defer bcancel()
+				r, e := n.cli.BatchWrite(bctx, &pb.BatchWriteRequest{Operations: []*pb.Operation{
+					{Type: pb.Operation_PUT, Key: ka, Value: va}, {Type: pb.Operation_PUT, Key: kb, Value: vb}}})
+				bch <- bres{r, e}
+			}()
+			time.Sleep(30 * time.Millisecond) // let the batch reach the server while the stream stands
+			if err == nil {
+				var more []kvPair
+				more, err = streamRows(func() ([]byte, []byte, error) {
+					m, e := st.Recv()
+					if e != nil {
+						return nil, nil, e
+					}
+					return m.Key, m.Value, nil
+				})
+				rows = append(rows, more...)
+			}
+			scancel()
+			br := <-bch
+			if err != nil {
+				out(errObs(err))
+				fail("scanwrite: the scan failed: " + err.Error())
+				break
+			}
+			printRows("S", "s", rows)
+			sawA, sawB := false, false
+			for _, kv := range rows {
+				if bytes.Equal(kv.k, ka) && bytes.Equal(kv.v, va) {
+					sawA = true
+				}
+				if bytes.Equal(kv.k, kb) && bytes.Equal(kv.v, vb) {
+					sawB = true
+				}
+			}
+			if sawA != sawB {
+				fail(fmt.Sprintf("a Scan that ran while the batch {%s, %s} was committed shows one of its two writes (%s: %v, %s: %v): not all-or-nothing",
+					render(ka), render(kb), render(ka), sawA, render(kb), sawB))
+			}
+			if br.err != nil {
+				out(errObs(br.err))
+				break
+			}
+			out("R ok")
+			if tx, err2 := n.e2.BeginTransaction(false); err2 == nil {
+				tx.Put(ka, va)
+				tx.Put(kb, vb)
+				tx.Commit()
+			}
+			ref[string(ka)] = append([]byte{}, va...)
+			ref[string(kb)] = append([]byte{}, vb...)
 		case "cbegin":
 			// l[1] clients begin a read-only transaction AT THE SAME TIME, l[2] rounds: every handle
 			// handed out must be distinct and usable by its owner (one TxGet), then it is rolled back
